@@ -127,6 +127,9 @@ def split_annotations(lines):
             anns.append(('in', lines[i].replace('//@', '   ', 1), off))
             i += 1
         else:
+            if '//@' in lines[i]:
+                # an annotation marker that does not start its line would be read as an ordinary comment and vanish
+                raise GenError('annotation marker in the middle of a line (must start the line): %r' % lines[i].strip()[:120])
             code.append(lines[i])
             off += len(lines[i]) + 1
             i += 1
@@ -175,6 +178,8 @@ IDIOMS = [
     # R6: clone-on-write wrapper -> owned copy (`Cow::Borrowed(x)` + `.to_mut()` is `x.clone()` + `&mut` up to allocation behaviour)
     ('R6.cow_borrowed', r'stdlib::borrow::Cow::Borrowed\(([A-Za-z_][A-Za-z0-9_]*(?:\.[A-Za-z_][A-Za-z0-9_]*)*)\)', r'\1.clone()'),
     ('R6.cow_to_mut', r'\b([A-Za-z_][A-Za-z0-9_]*)\.to_mut\(\)', r'&mut \1'),
+    # R2: a wildcard closure parameter is named (Verus accepts only variables there)
+    ('R2.closure_wildcard_param', r'\|_\| ', r'|_unused| '),
     # R3 debug_assert_eq / _ne  (message dropped)
     ('R3.debug_assert_eq_carry', r'debug_assert_eq!\(carry, &0\);', r'debug_assert!(*carry == 0);'),
     ('R3.debug_assert_eq', r'debug_assert_eq!\(([^,;]+), ([^,;]+)\);', r'debug_assert!(\1 == \2);'),
